@@ -4,6 +4,8 @@
 (*    "ev": [{"q": <request>, "o": <observation>}, ...]}   in the order executed    *)
 (* An observation carries the original row numbers written out ("rows") or, for a    *)
 (* long table, in run-length form ("runs": [[first, step, count], ...]).             *)
+(* An event {"a": "derive" | "drop" | "collect"} is a lifetime step of the caller    *)
+(* (Select.tla: HLife) between reads.                                                  *)
 (* The handle state machine of Select.tla is stepped through the events: Open,       *)
 (* then one HRead per event; every observation must be accepted by the property      *)
 (* level spec in the state the handle is in (which - this is the point - depends on  *)
@@ -26,6 +28,7 @@ Next == PickBlock \/ PickTrace
 RECURSIVE RunFrom(_, _, _)
 RunFrom(hd, ev, k) ==
     IF k > Len(ev) THEN {}
+    ELSE IF "a" \in DOMAIN ev[k] THEN RunFrom(HLife(hd, ev[k].a), ev, k + 1)     \* a lifetime step of the caller
     ELSE {<<k, cl>> : cl \in HFailing(hd, ev[k].q, ev[k].o)} \cup RunFrom(HRead(hd, ev[k].q), ev, k + 1)
 
 FailingRec(r) == RunFrom(HOpenT(r.n, r.nc), r.ev, 1)
